@@ -197,6 +197,12 @@ class AEval(dtable.Eval):
         if k == "Cast":
             v = self.ex(e["expr"], env)
             return I(v[1]) if v[0] == "char" else v
+        if k == "Range":
+            lo = self.ex(e["start"], env) if is_node(e.get("start")) else I(0)
+            hi = self.ex(e["end"], env) if is_node(e.get("end")) else None
+            if hi is None or lo[0] != "int" or hi[0] != "int":
+                raise Unknown("range expression")
+            return L(*[I(x) for x in range(lo[1], hi[1] + (1 if e.get("inclusive") else 0))])
         if k == "Tuple":
             return T(*[self.ex(x, env) for x in e["elems"]])
         if k == "Array":
@@ -456,6 +462,35 @@ class AEval(dtable.Eval):
                 raise Unknown("mutation " + m)
             env[rnode["path"]] = ("list", tuple(cur))
             return UNIT
+        # mutation of a list held in a named field of a variable: `keys.0.insert(k, v)`
+        if m in ("push", "insert", "extend") and is_node(rnode) and rnode["k"] == "Field" and is_node(rnode["base"]) and rnode["base"]["k"] == "Path" \
+                and rnode["base"]["path"] in env and env[rnode["base"]["path"]][0] == "ctor":
+            holder = env[rnode["base"]["path"]]
+            fs = fields_of(holder)
+            mem = rnode["member"]
+            cur = None
+            if mem in fs and fs[mem][0] == "list":
+                cur = list(fs[mem][1])
+            elif mem.isdigit() and int(mem) < len(holder[2]) and holder[2][int(mem)][0] == "list":
+                cur = list(holder[2][int(mem)][1])
+            if cur is not None:
+                vals = [self.ex(a, env) for a in e["args"]]
+                if m == "push" and len(vals) == 1:
+                    cur.append(vals[0])
+                elif m == "insert" and len(vals) == 2:
+                    cur = [x for x in cur if not (x[0] == "tuple" and len(x[1]) == 2 and x[1][0] == vals[0])] + [T(vals[0], vals[1])]
+                elif m == "extend" and len(vals) == 1 and vals[0][0] == "list":
+                    cur.extend(vals[0][1])
+                else:
+                    raise Unknown("mutation " + m)
+                if mem in fs:
+                    fs[mem] = ("list", tuple(cur))
+                    env[rnode["base"]["path"]] = ("ctor", holder[1], holder[2], tuple(sorted(fs.items())))
+                else:
+                    args2 = list(holder[2])
+                    args2[int(mem)] = ("list", tuple(cur))
+                    env[rnode["base"]["path"]] = ("ctor", holder[1], tuple(args2)) + tuple(holder[3:])
+                return UNIT
         if m in ("write_str", "push_str", "write_char", "push") and len(e["args"]) == 1 and is_node(rnode) and rnode["k"] == "Path" \
                 and not (rnode["path"] in env and env[rnode["path"]][0] == "list"):
             v = self.ex(e["args"][0], env)
